@@ -2,7 +2,7 @@
 Trace validation: scripted clients (independent codec) drive real in-process brokers; the recorded wire traces
 are validated by TLC against Broker.tla through TraceBroker.tla; see DESIGN.md §C01."""
 import random
-import vlib, trace_lib, scen
+import vlib, trace_lib, scen, brokerop_lib
 
 LEVEL = "model_checking"
 INV = ("IdsDistinct", "SubsKeyed", "OneConnPerId")
@@ -18,54 +18,19 @@ def run(ctx):
                        "barrier via sentinel; (b) concurrent numbered publishers with a static table. Every recorded trace is validated "
                        "line by line by TLC against Broker.tla (obligations, per-pair order, ack pairing); distinct = scenarios with a "
                        "distinct script, non-trivial = at least one delivery obligation was created")
+    # design level: the operational delivery rules refine the declarative obligations (TLC, exhaustive in the bound)
+    if quick:
+        packs = sorted(brokerop_lib.FILTERS)
+        brokerop_lib.run(ctx, packs[ctx.seed % len(packs)], ["overlap", "onlyonce"][ctx.seed % 2])
+    else:
+        for pack in sorted(brokerop_lib.FILTERS):
+            for mode in ("overlap", "onlyonce"):
+                brokerop_lib.run(ctx, pack, mode, nopts=3, pubqos=(0, 1, 2), timeout=3000)
     rejected, stats = trace_lib.validate(ctx, scs, "c01", invariants=INV)
     ctx.cov["traces_validated_against_impl"] += stats["validated"] + stats["rejected"]
     ctx.cov["evaluations"] += stats["events"]
     ctx.cov["distinct_nontrivial"] += stats["scenarios"]
     ctx.cov["scenarios"] = stats
-    confirm(ctx, rejected, INV)
+    trace_lib.confirm(ctx, rejected, INV)
 
 
-def confirm(ctx, rejected, inv, module="TraceBroker", limit=4):
-    """re-execute rejected scenarios alone (slow mode for absence-type rejections) and report the confirmed ones;
-    at most `limit` are re-executed, the others are reported as recorded"""
-    ctx.cov["rejected_scenarios"] = len(rejected)
-    for n, r in enumerate(rejected):
-        if n >= limit:
-            sc = r["scenario"]
-            if '"e":"quiet"' in (r.get("event") or ""):
-                continue        # absence-type rejections are only reported after a slow-mode confirmation
-            ctx.violation("trace of scenario %s rejected at line %s: %s" % (sc["id"], r["line"], (r.get("event") or "")[:300]),
-                          {"signature": "trace:" + sig_of(r.get("event")), "kind": "wire-trace", "scenario": sc, "line": r["line"],
-                           "event": r.get("event"), "why": r.get("why"), "trace": r["trace"]})
-            continue
-        ev = r.get("event") or ""
-        absence = '"e":"quiet"' in ev
-        sc = r["scenario"]
-        if absence:
-            # absence-type: re-execute in slow mode; report only if the obligation is still unmet
-            acc, info = trace_lib.single(ctx, sc, "slow_" + sc["id"], module=module, invariants=inv, slow=True)
-            if acc:
-                ctx.cov["timing_unconfirmed"] = ctx.cov.get("timing_unconfirmed", 0) + 1
-                continue
-            r = {"scenario": sc, "trace": info["trace"], "line": info["line"], "event": info.get("event"), "why": info.get("why"),
-                 "state": info.get("state")}
-        else:
-            acc, info = trace_lib.single(ctx, sc, "re_" + sc["id"], module=module, invariants=inv)
-            if not acc:
-                r = {"scenario": sc, "trace": info["trace"], "line": info["line"], "event": info.get("event"), "why": info.get("why"),
-                     "state": info.get("state")}
-        what = "trace of scenario %s rejected at line %s: %s -- %s" % (sc["id"], r["line"], (r.get("event") or "")[:300], r.get("why"))
-        ctx.violation(what, {"signature": "trace:" + sig_of(r.get("event")), "kind": "wire-trace", "scenario": sc, "line": r["line"],
-                             "event": r.get("event"), "why": r.get("why"), "state": r.get("state"), "trace": r["trace"]})
-    if ctx.cov.get("timing_unconfirmed", 0) > 5:
-        raise vlib.MachineryError("too many timing-dependent rejections (%d): machinery not trustworthy on this machine" % ctx.cov["timing_unconfirmed"])
-
-
-def sig_of(ev):
-    import json
-    try:
-        e = json.loads(ev)
-        return e.get("e", "?")
-    except Exception:
-        return "?"
